@@ -32,6 +32,7 @@ import (
 	"strconv"
 	"strings"
 	"sync"
+	"sync/atomic"
 	"time"
 
 	"verifharness/vutil"
@@ -111,6 +112,11 @@ func outContent(o int) []byte {
 	if c, ok := contents[o]; ok {
 		return c
 	}
+	if o == 2 {
+		// the empty output: its file is zero bytes long and an entry like any other
+		contents[o] = []byte{}
+		return contents[o]
+	}
 	for n := 0; ; n++ {
 		c := []byte(fmt.Sprintf("output %d variant %d\n", o, n))
 		if sha256.Sum256(c)[0] == outFirst[o] {
@@ -132,6 +138,8 @@ var nonEntryPath = map[string]string{
 	"subdash":  "00/foreign-a",                               // ambiguous: foreign file with the entry suffix
 	"otherdir": "tmp/" + hex64 + "-a",                        // entry-like name in a directory that is no cache subdirectory
 }
+
+var corruptSeq int64
 
 var corruptVariant = map[int64][]byte{
 	1: []byte("garbage"),
@@ -354,8 +362,11 @@ func build(cs *caseJ, root string) (*world, error) {
 		if err := os.WriteFile(tp, b, 0o666); err != nil {
 			return nil, err
 		}
-		t := now.Add(-mins(3000))
-		os.Chtimes(tp, t, t)
+		// an unreadable record says nothing, whenever it was written: every other one is two days old, the others fresh
+		if atomic.AddInt64(&corruptSeq, 1)%2 == 0 {
+			t := now.Add(-mins(3000))
+			os.Chtimes(tp, t, t)
+		}
 	case "time":
 		t := now.Add(-mins(cs.Init.TT.V))
 		if err := os.WriteFile(tp, []byte(strconv.FormatInt(t.Unix(), 10)), 0o666); err != nil {
